@@ -366,23 +366,51 @@ REGISTER_ENUM(Color, {
 	{ Color::Blue, "Blue" }
 })
 
+// a registered enum with 12 values (more than any small-table threshold); converted in both directions
+enum class Planet { Mercury, Venus, Earth, Mars, Jupiter, Saturn, Uranus, Neptune, Pluto, Ceres, Eris, Haumea };
+REGISTER_ENUM(Planet, {
+	{ Planet::Mercury, "Mercury" }, { Planet::Venus, "Venus" }, { Planet::Earth, "Earth" }, { Planet::Mars, "Mars" },
+	{ Planet::Jupiter, "Jupiter" }, { Planet::Saturn, "Saturn" }, { Planet::Uranus, "Uranus" }, { Planet::Neptune, "Neptune" },
+	{ Planet::Pluto, "Pluto" }, { Planet::Ceres, "Ceres" }, { Planet::Eris, "Eris" }, { Planet::Haumea, "Haumea" }
+})
+
 namespace cat {
 
 using Seconds = std::chrono::seconds;
 using TimeSec = std::chrono::time_point<std::chrono::system_clock, std::chrono::seconds>;
 
 // int, UTF-8 and UTF-16 string, registered enum, std::map, std::pair, std::multimap (pair.h statics), chrono members
+// four levels of nesting
+struct Level4 { std::string name; int v = 0; Planet planet = Planet::Earth;
+	template <class A> void Serialize(A& a) { a << KeyValue("name", name); a << KeyValue("v", v); a << KeyValue("planet", planet); } };
+struct Level3 { Level4 inner; std::vector<Level4> items;
+	template <class A> void Serialize(A& a) { a << KeyValue("inner", inner); a << KeyValue("items", items); } };
+struct Level2 { Level3 inner; std::u16string label;
+	template <class A> void Serialize(A& a) { a << KeyValue("inner", inner); a << KeyValue("label", label); } };
+struct Level1 { Level2 inner; int depth = 1;
+	template <class A> void Serialize(A& a) { a << KeyValue("inner", inner); a << KeyValue("depth", depth); } };
+
 struct Doc
 {
 	int id = 0;
 	std::string u8;
 	std::u16string u16;
 	Color color = Color::Red;
+	Planet planet = Planet::Mercury;
 	std::map<std::string, int> scores;
 	std::pair<std::string, int> best;
 	std::multimap<std::string, int> tags;
 	Seconds dur{};
 	TimeSec at{};
+	// size-dependent paths: strings longer than the SSO buffer (15), one stream chunk (256), 2048 and 4096 bytes
+	std::string s17, s300, s2100, s4200;
+	std::u16string w300, w2100;
+	std::vector<std::string> texts;          // 20 strings of growing length
+	std::vector<int> numbers;                // 400 elements (> 16, > 255)
+	std::vector<uint8_t> blob;               // 5000 bytes
+	std::vector<Planet> planets;             // 40 enum values (big enum, both directions)
+	std::map<std::string, Planet> byName;    // 300 entries, one key longer than a stream chunk
+	Level1 nested;
 
 	template <class TArchive>
 	void Serialize(TArchive& archive)
@@ -391,12 +419,34 @@ struct Doc
 		archive << KeyValue("u8", u8);
 		archive << KeyValue("u16", u16);
 		archive << KeyValue("color", color);
+		archive << KeyValue("planet", planet);
 		archive << KeyValue("scores", scores);
 		archive << KeyValue("best", best);
 		archive << KeyValue("tags", tags);
 		archive << KeyValue("dur", dur);
 		archive << KeyValue("at", at);
+		archive << KeyValue("s17", s17);
+		archive << KeyValue("s300", s300);
+		archive << KeyValue("s2100", s2100);
+		archive << KeyValue("s4200", s4200);
+		archive << KeyValue("w300", w300);
+		archive << KeyValue("w2100", w2100);
+		archive << KeyValue("texts", texts);
+		archive << KeyValue("numbers", numbers);
+		archive << KeyValue("blob", blob);
+		archive << KeyValue("planets", planets);
+		archive << KeyValue("byName", byName);
+		archive << KeyValue("nested", nested);
 	}
+};
+
+// MsgPack only: the 32-bit length forms (bin32 / str32 / array32: more than 65535 bytes / elements)
+struct Large
+{
+	std::vector<uint8_t> blob;
+	std::string text;
+	std::vector<uint16_t> numbers;
+	template <class A> void Serialize(A& a) { a << KeyValue("blob", blob); a << KeyValue("text", text); a << KeyValue("numbers", numbers); }
 };
 
 // CSV is flat: one row per object
@@ -406,8 +456,11 @@ struct Row
 	std::string u8;
 	std::u16string u16;
 	Color color = Color::Red;
+	Planet planet = Planet::Mercury;
 	Seconds dur{};
 	TimeSec at{};
+	std::string longText;            // 20 .. 4200 bytes, with quotes and separators
+	std::u16string wide;
 
 	template <class TArchive>
 	void Serialize(TArchive& archive)
@@ -416,8 +469,11 @@ struct Row
 		archive << KeyValue("u8", u8);
 		archive << KeyValue("u16", u16);
 		archive << KeyValue("color", color);
+		archive << KeyValue("planet", planet);
 		archive << KeyValue("dur", dur);
 		archive << KeyValue("at", at);
+		archive << KeyValue("longText", longText);
+		archive << KeyValue("wide", wide);
 	}
 };
 
@@ -447,6 +503,13 @@ inline std::string HexOf(const std::string& s)
 	return o;
 }
 
+inline std::string Digest64(const std::string& s)
+{
+	uint64_t h = 1469598103934665603ull;
+	for (unsigned char c : s) { h ^= c; h *= 1099511628211ull; }
+	return std::to_string(h) + ":" + std::to_string(s.size());
+}
+
 // ---- canonical text of loaded values (own code: no library conversion inside the dump) ----------------------------
 inline std::string Dump(const std::u16string& s)
 {
@@ -454,13 +517,31 @@ inline std::string Dump(const std::u16string& s)
 	for (char16_t c : s) { char b[8]; snprintf(b, sizeof b, "%04x", static_cast<unsigned>(c)); o += b; }
 	return o;
 }
+inline std::string Dump(const Level4& l) { return l.name + "/" + std::to_string(l.v) + "/" + std::to_string(static_cast<int>(l.planet)); }
 inline std::string Dump(const Doc& d)
 {
-	std::string o = "id=" + std::to_string(d.id) + ";u8=" + HexOf(d.u8) + ";u16=" + Dump(d.u16) + ";color=" + std::to_string(static_cast<int>(d.color)) + ";scores=";
+	std::string o = "id=" + std::to_string(d.id) + ";u8=" + HexOf(d.u8) + ";u16=" + Dump(d.u16) + ";color=" + std::to_string(static_cast<int>(d.color)) +
+		";planet=" + std::to_string(static_cast<int>(d.planet)) + ";scores=";
 	for (auto& kv : d.scores) o += kv.first + ":" + std::to_string(kv.second) + ",";
 	o += ";best=" + d.best.first + ":" + std::to_string(d.best.second) + ";tags=";
 	for (auto& kv : d.tags) o += kv.first + ":" + std::to_string(kv.second) + ",";
 	o += ";dur=" + std::to_string(static_cast<long long>(d.dur.count())) + ";at=" + std::to_string(static_cast<long long>(d.at.time_since_epoch().count()));
+	o += ";s17=" + d.s17 + ";s300=" + d.s300 + ";s2100=" + d.s2100 + ";s4200=" + d.s4200 + ";w300=" + Dump(d.w300) + ";w2100=" + Dump(d.w2100) + ";texts=";
+	for (auto& t : d.texts) o += t + ",";
+	o += ";numbers=";
+	for (int n : d.numbers) o += std::to_string(n) + ",";
+	o += ";blob=" + HexOf(std::string(reinterpret_cast<const char*>(d.blob.data()), d.blob.size())) + ";planets=";
+	for (Planet pl : d.planets) o += std::to_string(static_cast<int>(pl)) + ",";
+	o += ";byName=";
+	for (auto& kv : d.byName) o += kv.first + ":" + std::to_string(static_cast<int>(kv.second)) + ",";
+	o += ";nested=" + std::to_string(d.nested.depth) + "/" + Dump(d.nested.inner.label) + "/" + Dump(d.nested.inner.inner.inner) + "/";
+	for (auto& l : d.nested.inner.inner.items) o += Dump(l) + ",";
+	return o;
+}
+inline std::string Dump(const Large& l)
+{
+	std::string o = "blob=" + HexOf(std::string(reinterpret_cast<const char*>(l.blob.data()), l.blob.size())) + ";text=" + l.text + ";numbers=";
+	for (auto n : l.numbers) o += std::to_string(n) + ",";
 	return o;
 }
 inline std::string Dump(const std::vector<Row>& rows)
@@ -468,7 +549,9 @@ inline std::string Dump(const std::vector<Row>& rows)
 	std::string o;
 	for (auto& r : rows)
 		o += "id=" + std::to_string(r.id) + ";u8=" + HexOf(r.u8) + ";u16=" + Dump(r.u16) + ";color=" + std::to_string(static_cast<int>(r.color)) +
-			";dur=" + std::to_string(static_cast<long long>(r.dur.count())) + ";at=" + std::to_string(static_cast<long long>(r.at.time_since_epoch().count())) + "|";
+			";planet=" + std::to_string(static_cast<int>(r.planet)) +
+			";dur=" + std::to_string(static_cast<long long>(r.dur.count())) + ";at=" + std::to_string(static_cast<long long>(r.at.time_since_epoch().count())) +
+			";long=" + HexOf(r.longText) + ";wide=" + Dump(r.wide) + "|";
 	return o;
 }
 inline std::string Dump(const User& u) { return "age=" + std::to_string(u.age) + ";name=" + u.name + ";email=" + u.email + ";missing=" + u.missing; }
@@ -491,6 +574,9 @@ struct Inputs
 	std::string jsonBroken;
 	std::u16string utf16Text;
 	std::string utf8Text;
+	Large large;                              // MsgPack 32-bit length forms
+	std::string msgpackLarge;
+	SerializationOptions utfOptions[5];       // text streams in UTF-8 / UTF-16 LE / BE / UTF-32 LE / BE, with BOM
 };
 static Inputs g_in;
 
@@ -586,6 +672,13 @@ std::string OpConvEnum()
 		std::string o = Convert::ToString(Color::Green) + "|" + std::to_string(static_cast<int>(Convert::To<Color>("blue"))) + "|" + Dump(Convert::To<std::u16string>(Color::Red));
 		o += "|" + std::to_string(static_cast<int>(Convert::To<Color>(u"GREEN")));
 		try { (void)Convert::To<Color>("Magenta"); o += "|noexc"; } catch (const std::exception& ex) { o += std::string("|exc:") + ex.what(); }
+		// the 12-value enum, every value in both directions, narrow and wide names
+		for (int i = 0; i < 12; ++i) {
+			const std::string name = Convert::ToString(static_cast<Planet>(i));
+			o += "|" + name + "=" + std::to_string(static_cast<int>(Convert::To<Planet>(name)));
+			o += "," + std::to_string(static_cast<int>(Convert::To<Planet>(Convert::To<std::u16string>(static_cast<Planet>(11 - i)))));
+		}
+		o += Convert::TryTo<Planet>("Vulcan").has_value() ? "|found" : "|notfound";
 		return o;
 	});
 }
@@ -614,6 +707,31 @@ std::string OpConvUtf()
 	});
 }
 
+// MsgPack 32-bit length forms, memory and stream
+std::string OpLargeMem() { return Guarded([] { const std::string bytes = SaveMem<MsgPackArchive>(g_in.large); Large l; LoadMem<MsgPackArchive>(l, g_in.msgpackLarge); return Digest64(bytes) + "|" + Digest64(Dump(l)); }); }
+std::string OpLargeStream() { return Guarded([] { const std::string bytes = SaveStream<MsgPackArchive>(g_in.large, g_in.streamOptions); Large l; LoadStream<MsgPackArchive>(l, g_in.msgpackLarge); return Digest64(bytes) + "|" + Digest64(Dump(l)); }); }
+
+// Text archives through streams in all five UTF encodings (with BOM): save, then load the produced bytes back
+template <class TArchive> std::string OpUtfStreams()
+{
+	return Guarded([] {
+		std::string o;
+		for (int e = 0; e < 5; ++e) {
+			if constexpr (std::is_same_v<TArchive, CsvArchive>) {
+				const std::string bytes = SaveStream<TArchive>(g_in.rows, g_in.utfOptions[e]);
+				std::vector<Row> r; LoadStream<TArchive>(r, bytes);
+				o += Digest64(bytes) + "/" + Digest64(Dump(r)) + "|";
+			}
+			else {
+				const std::string bytes = SaveStream<TArchive>(g_in.doc, g_in.utfOptions[e]);
+				Doc d; LoadStream<TArchive>(d, bytes);
+				o += Digest64(bytes) + "/" + Digest64(Dump(d)) + "|";
+			}
+		}
+		return o;
+	});
+}
+
 static const Op kOps[] = {
 	{"save_msgpack_mem", &OpSaveDocMem<MsgPackArchive>}, {"save_msgpack_stream", &OpSaveDocStream<MsgPackArchive>},
 	{"load_msgpack_mem", &OpLoadDocMem<MsgPackArchive>}, {"load_msgpack_stream", &OpLoadDocStream<MsgPackArchive>},
@@ -626,6 +744,8 @@ static const Op kOps[] = {
 	{"validate_msgpack", &OpValidate<MsgPackArchive>}, {"validate_json", &OpValidate<JsonArchive>},
 	{"validate_xml", &OpValidate<XmlArchive>}, {"validate_csv", &OpValidate<CsvArchive>},
 	{"load_json_broken", &OpLoadJsonBroken},
+	{"large_msgpack_mem", &OpLargeMem}, {"large_msgpack_stream", &OpLargeStream},
+	{"utf_streams_json", &OpUtfStreams<JsonArchive>}, {"utf_streams_xml", &OpUtfStreams<XmlArchive>}, {"utf_streams_csv", &OpUtfStreams<CsvArchive>},
 	{"conv_numbers", &OpConvNumbers}, {"conv_enum", &OpConvEnum}, {"conv_chrono", &OpConvChrono}, {"conv_utf", &OpConvUtf},
 };
 constexpr size_t kNumOps = sizeof(kOps) / sizeof(kOps[0]);
@@ -644,15 +764,40 @@ static void BuildInputs()
 	d.tags = {{"k", 1}, {"k", 2}, {"z", 3}};
 	d.dur = Seconds(3725);
 	d.at = TimeSec(Seconds(1672531200));
-	for (int i = 0; i < 3; ++i) {
+	d.planet = Planet::Saturn;
+	// text of a given byte length (ASCII with a two-byte character now and then, never ending inside a sequence)
+	auto text = [](size_t n, char seed) {
+		std::string t;
+		while (t.size() < n) { t += static_cast<char>('a' + (t.size() * 7 + static_cast<size_t>(seed)) % 26); if (t.size() % 50 == 49 && t.size() + 2 <= n) t += "\xC3\xA4"; }
+		return t;
+	};
+	auto wide = [](size_t n) { std::u16string t; while (t.size() < n) t += static_cast<char16_t>(t.size() % 40 == 39 ? 0x0416 : u'A' + t.size() % 26); return t; };
+	d.s17 = text(17, 1); d.s300 = text(300, 2); d.s2100 = text(2100, 3); d.s4200 = text(4200, 4);
+	d.w300 = wide(300); d.w2100 = wide(2100);
+	for (size_t i = 0; i < 20; ++i) d.texts.push_back(text(i * i * 13 + 1, static_cast<char>(i)));   // 1 .. 4694 bytes
+	for (int i = 0; i < 400; ++i) d.numbers.push_back(i * 167 - 30000);
+	for (int i = 0; i < 5000; ++i) d.blob.push_back(static_cast<uint8_t>(i * 31 + 7));
+	for (int i = 0; i < 40; ++i) d.planets.push_back(static_cast<Planet>((i * 5) % 12));
+	for (int i = 0; i < 299; ++i) d.byName["key" + std::to_string(1000 + i)] = static_cast<Planet>(i % 12);
+	d.byName["k" + text(299, 5).substr(0, 299)] = Planet::Haumea;     // a key longer than one stream chunk (ASCII only)
+	d.nested.depth = 4; d.nested.inner.label = wide(70);
+	d.nested.inner.inner.inner = Level4{text(310, 6), 7, Planet::Eris};
+	for (int i = 0; i < 20; ++i) d.nested.inner.inner.items.push_back(Level4{text(static_cast<size_t>(10 + i * 20), static_cast<char>(i)), i, static_cast<Planet>(i % 12)});
+	for (int i = 0; i < 320; ++i) {
 		Row r;
 		r.id = 100 + i; r.u8 = "row \xC3\xA4,\"quoted\" " + std::to_string(i); r.u16 = u"üб 16";
-		r.color = static_cast<Color>(i % 3); r.dur = Seconds(60 * i + 5); r.at = TimeSec(Seconds(1600000000 + 86400 * i));
+		r.color = static_cast<Color>(i % 3); r.planet = static_cast<Planet>(i % 12); r.dur = Seconds(60 * i + 5); r.at = TimeSec(Seconds(1600000000 + 86400 * i));
+		r.longText = (i % 40 == 0) ? text(static_cast<size_t>(20 + (i / 40) * 600), static_cast<char>(i)) + ",\"q\"\r\n" : std::string("t") + std::to_string(i);
+		r.wide = (i % 64 == 0) ? wide(static_cast<size_t>(300 + i)) : std::u16string(u"w");
 		g_in.rows.push_back(r);
 	}
+	for (int i = 0; i < 70000; ++i) { g_in.large.blob.push_back(static_cast<uint8_t>(i * 13)); g_in.large.numbers.push_back(static_cast<uint16_t>(i * 3)); }
+	g_in.large.text = text(70001, 9);
+	const Convert::Utf::UtfType encodings[5] = {Convert::Utf::UtfType::Utf8, Convert::Utf::UtfType::Utf16le, Convert::Utf::UtfType::Utf16be, Convert::Utf::UtfType::Utf32le, Convert::Utf::UtfType::Utf32be};
+	for (int e = 0; e < 5; ++e) { g_in.utfOptions[e].streamOptions.writeBom = true; g_in.utfOptions[e].streamOptions.encoding = encodings[e]; }
 	g_in.streamOptions.streamOptions.writeBom = false;
-	g_in.utf8Text = d.u8;
-	g_in.utf16Text = d.u16;
+	g_in.utf8Text = d.u8 + d.s2100;
+	g_in.utf16Text = d.u16 + d.w2100;
 	// documents that fail validation: age out of range, name too long, invalid email, one member absent
 	g_in.jsonUser = R"({"age":500,"name":"John Smith-Cotatonovich","email":"smith 2000@mail.com"})";
 	g_in.xmlUser = "<?xml version=\"1.0\"?><Doc><age>500</age><name>John Smith-Cotatonovich</name><email>smith 2000@mail.com</email></Doc>";
@@ -670,11 +815,13 @@ struct UserSrc
 static std::vector<std::string> ProduceDocs()
 {
 	UserSrc src;
-	return { SaveMem<MsgPackArchive>(g_in.doc), SaveMem<JsonArchive>(g_in.doc), SaveMem<XmlArchive>(g_in.doc), SaveMem<CsvArchive>(g_in.rows), SaveMem<MsgPackArchive>(src) };
+	return { SaveMem<MsgPackArchive>(g_in.doc), SaveMem<JsonArchive>(g_in.doc), SaveMem<XmlArchive>(g_in.doc), SaveMem<CsvArchive>(g_in.rows), SaveMem<MsgPackArchive>(src),
+		SaveMem<MsgPackArchive>(g_in.large) };
 }
 static void InstallDocs(const std::vector<std::string>& docs)
 {
 	g_in.msgpackDoc = docs.at(0); g_in.jsonDoc = docs.at(1); g_in.xmlDoc = docs.at(2); g_in.csvDoc = docs.at(3); g_in.msgpackUser = docs.at(4);
+	g_in.msgpackLarge = docs.at(5);
 }
 // For the recorder: the producing calls run in a helper child process, so that the recording processes have never
 // executed any library code before the cold call of their operation.
@@ -699,7 +846,7 @@ static void ProduceDocsInChild()
 	std::vector<std::string> docs;
 	size_t off = 0;
 	while (off + 8 <= blob.size()) { uint64_t n; memcpy(&n, blob.data() + off, 8); off += 8; docs.push_back(blob.substr(off, n)); off += n; }
-	if (docs.size() != 5) { fprintf(stderr, "bsaccess: producing the input documents failed\n"); exit(3); }
+	if (docs.size() != 6) { fprintf(stderr, "bsaccess: producing the input documents failed\n"); exit(3); }
 	InstallDocs(docs);
 }
 
